@@ -383,6 +383,53 @@ def _forms_resolve(vpk, info, full: str) -> bool:
         return False
 
 
+def strict_decode(raw: bytes) -> tuple[dict, bytes]:
+    """An independent, strict reader of a version-1 directory file (written for this check, shares no code with vpk.py):
+    the tree must end exactly where the header's tree length says; everything after it is the trailing data block."""
+    import struct
+    if len(raw) < 12:
+        raise ValueError('short header')
+    sig, ver, tlen = struct.unpack_from('<III', raw, 0)
+    if sig != 0x55aa1234 or ver != 1:
+        raise ValueError(f'signature/version {sig:#x}/{ver}')
+    end = 12 + tlen
+    if end > len(raw):
+        raise ValueError(f'tree length {tlen} exceeds the file')
+    pos = 12
+
+    def cstr():
+        nonlocal pos
+        z = raw.index(b'\x00', pos, end)
+        t = raw[pos:z].decode('ascii', 'surrogateescape')
+        pos = z + 1
+        return t
+    ents = {}
+    while True:
+        ext = cstr()
+        if ext == '':
+            break
+        while True:
+            folder = cstr()
+            if folder == '':
+                break
+            while True:
+                name = cstr()
+                if name == '':
+                    break
+                if pos + 18 > end:
+                    raise ValueError('entry crosses the end of the tree')
+                crc, plen, ai, off, alen, term = struct.unpack_from('<IHHIIH', raw, pos)
+                pos += 18
+                if term != 0xffff or pos + plen > end:
+                    raise ValueError('bad terminator / preload crosses the end of the tree')
+                k = tuple('' if x == ' ' else x for x in (folder, name, ext))
+                ents[k] = (crc, dg(raw[pos:pos + plen]), None if ai == 0x7fff else ai, off if alen else 0, alen)
+                pos += plen
+    if pos != end:
+        raise ValueError(f'tree ends at byte {pos}, header says {end}')
+    return ents, raw[end:]
+
+
 def check_case(case: dict) -> tuple[str, str, int] | None:
     """Oracle: the implementation against the specification map. Returns (key, what, step) of the first problem."""
     exp = run_spec(case)
@@ -426,6 +473,15 @@ def check_case(case: dict) -> tuple[str, str, int] | None:
     for k, ok in got['forms'].items():
         if not ok and not (k[2] == '' and '.' in k[1]):
             return ('name-forms-disagree', f'string/2-tuple/3-tuple forms of {join_parts(*k)!r} do not all resolve to the entry {k}', n)
+    # independent decode of the bytes on disk (the last operations are write_dirfile + reopen, so the file is the saved state)
+    if exp[-1]['code'] == R_OK and case['ops'][-1][0] == 'reopen' and case['ops'][-1][1] != 'w':
+        try:
+            ents, foot = strict_decode(got['disk'])
+        except Exception as e:      # noqa
+            return ('independent-decode-rejects', f'the directory file written by write_dirfile is not a well-formed version-1 directory: {type(e).__name__}: {e}'[:300], n)
+        if ents != got['entries'] or dg(foot) != got['footer']:
+            return ('independent-decode-mismatch', f'an independent reader finds {len(ents)} entries / {len(foot)} trailing bytes in the directory file, '
+                    f'the library loads {len(got["entries"])} / {got["footer"][0]}', n)
     return None
 
 
@@ -482,8 +538,8 @@ CORPUS = [
 
 
 def search(ck: Ck) -> None:
-    n_small = bud(ck, 400, 2500, 6000)
-    n_big = bud(ck, 14, 80, 300)
+    n_small = bud(ck, 400, 1500, 6000)
+    n_big = bud(ck, 14, 40, 300)
     found: dict[str, tuple] = {}
     cases = list(CORPUS)
     for _ in range(n_small):
@@ -583,8 +639,8 @@ def c_dg(d) -> str:
 def corr_machine(ck: Ck) -> None:
     """SM/Vpk.v run on the same histories as the implementation: per-op code and summary, final per-file digests,
     byte-exact directory file and archives (length + CRC32)."""
-    n_small = bud(ck, 220, 900, 3000)
-    n_big = bud(ck, 3, 12, 40)
+    n_small = bud(ck, 220, 600, 3000)
+    n_big = bud(ck, 3, 8, 40)
     cases = [c for c in CORPUS]
     for _ in range(n_small):
         cases.append(gen_case(ck.rng, small=True))
@@ -645,7 +701,7 @@ def corr_decode(ck: Ck) -> None:
     """Independent decode: the bytes the implementation wrote (and truncations of them) through the model decoder,
     against what the implementation itself loads from those bytes."""
     from srctools.vpk import VPK
-    n = bud(ck, 100, 400, 1200)
+    n = bud(ck, 100, 300, 1200)
     lits = []
     nbad_files = 0
     d = tempfile.mkdtemp(prefix='c13d_', dir=os.environ.get('VERIF_SCRATCH', '/var/tmp'))
@@ -679,6 +735,7 @@ def corr_decode(ck: Ck) -> None:
                     variants.append(('v2-damaged', v2[:ck.rng.randrange(12, len(v2))]))
                 if j % 5 == 0:
                     variants.append(('bad-version', raw[:4] + ck.rng.choice([0, 3, 258]).to_bytes(4, 'little') + raw[8:]))
+            v1_ents = None
             for kind, v in variants:
                 p = os.path.join(d, 'x_dir.vpk')
                 with open(p, 'wb') as f:
@@ -686,6 +743,13 @@ def corr_decode(ck: Ck) -> None:
                 try:
                     vp = VPK(p, mode='r')
                     ents = {(i.dir, i._filename, i.ext): (i.crc, dg(i.start_data), i.arch_index, i.offset, i.arch_len) for i in vp}
+                    if kind == 'v1':
+                        v1_ents = (ents, vp.footer_data)
+                    elif kind == 'v2' and v1_ents is not None and (v1_ents != (ents, vp.footer_data) or vp.version != 2):
+                        # oracle, independent of the model: the version-2 copy must list the same entries and trailing data
+                        ck.violation('v2-entries-differ', f'a version-2 copy of a directory written by write_dirfile loads {len(ents)} entries / '
+                                     f'{len(vp.footer_data)} footer bytes (version {vp.version}); the version-1 file has {len(v1_ents[0])} / {len(v1_ents[1])}',
+                                     {'v2_file_hex': v.hex()[:6000], 'how': 'write the bytes to x_dir.vpk, open with VPK(mode="r"), compare with the same file with version 1 and without bytes 12..28'})
                     el = coq_list(f'({c_key(k)}, ({c}, {c_dg(pd)}, {c_idx(x)}, {o}, {l}))' for k, (c, pd, x, o, l) in sorted(ents.items()))
                     exp = f'(Some ({vp.version}, {el if el != "[]" else "@nil ent_t"}, {c_dg(dg(vp.footer_data))}))'
                     if ents:
@@ -702,9 +766,12 @@ def corr_decode(ck: Ck) -> None:
                             if not refused or f.read() != v:
                                 ck.violation('v2-write_dirfile-damages-file', 'write_dirfile on a version-2 archive did not refuse, or changed the file',
                                              {'file_hex': v.hex()[:4000]})
-                except Exception:      # noqa
+                except Exception as e:      # noqa
                     exp = 'None'
                     nbad_files += 1
+                    if kind == 'v2' and v1_ents is not None:
+                        ck.violation('v2-entries-differ', f'a version-2 copy of a directory written by write_dirfile is rejected: {type(e).__name__}: {e}'[:300],
+                                     {'v2_file_hex': v.hex()[:6000]})
                 lits.append(f'({coq_bytes(v)}, {exp})')
                 ck.count('corr_decoded_files')
                 ck.hist('decode_input', {'v1': 'written by write_dirfile', 'v2': 'version 2 (patched header)'}.get(kind, kind))
@@ -826,7 +893,7 @@ def c_ostr(x) -> str:
 
 def corr_archnames(ck: Ck) -> list[str]:
     """Fmt/VpkArchName.v over the translated configuration vs the files the implementation's sites open."""
-    n = bud(ck, 70, 250, 700)
+    n = bud(ck, 70, 150, 700)
     names = [b + sfx for b in BASES for sfx in NAME_SUFFIXES]
     ck.rng.shuffle(names)
     names = ['world_dir.vpk', 'pak01_dir.vpk', 'x.vpk', 'a_dir.vpk', '_dir.vpk', 'r_dir.vpk', 'did_dir.vpk'] + names
